@@ -1,5 +1,7 @@
 import ERP.Properties.C09
 import ERP.Properties.C18
+import ERP.Lemmas.CodeRegex
+import ERP.Model.Format
 /-! # C09, text entry point — now without the parsing hypothesis
 
 `C18.parse_total` (the line regex regenerated from the source matches at every offset of every
@@ -21,5 +23,175 @@ theorem C09_text [OfDecimal α] (cfg : Config) (inch : α) (hinch : inch ≠ 0) 
     ∃ s' r, handleGcodeText cfg inch s cmd gcode = .ok (s', r) ∧ WF s' ∧ Result.Shape r := by
   obtain ⟨c, hc⟩ := cmdOfText_total (α := α) cmd (String.ofList (gcode.map upperC))
   exact C09_text_partial cfg inch hinch s cmd gcode c hc h
+
+end ERP.C09
+
+/-! ## Returned command strings are never empty -/
+namespace ERP.C09
+open ERP ERP.Rx
+
+/-- `gcode = value` (the validating setter) leaves a parser whose `gcode` is known -/
+theorem setGcode_gcode_some (p q : Parser) (value : Text) (h : p.setGcode value = .ok q) :
+    ∃ g, q.gcode = some g ∧ g ≠ [] := by
+  unfold Parser.setGcode at h
+  split at h
+  · cases h
+  · rename_i e c hm
+    cases h
+    have hcaps := gcodeCode_caps value.toArray e c hm
+    have hsz : value.toArray.size = value.length := by simp
+    rw [hsz] at hcaps
+    unfold Parser.gcodeMatch Parser.gcode
+    have hslice : ∀ a b, a < b → b ≤ value.length → slice value a b ≠ [] := by
+      intro a b hab hb he
+      have := congrArg List.length he
+      simp [slice] at this
+      omega
+    rcases hcaps with ⟨a, q1, q2, c1, ha, c2, hq, hq2⟩ | ⟨a, q1, q2, c1, c2, c4, ha, c5, hq, hq2⟩
+    · simp only [capText, c1, c2, Option.map_some]
+      have hne := hslice a (a + 1) (by omega) (by omega)
+      cases hs : slice value a (a + 1) with
+      | nil => exact absurd hs hne
+      | cons ch rest =>
+        have hne2 := hslice q1 q2 hq hq2
+        simp only [List.isEmpty_cons, Bool.false_eq_true, if_false]
+        cases hs2 : slice value q1 q2 with
+        | nil => exact absurd hs2 hne2
+        | cons d ds =>
+          simp only [List.isEmpty_cons, Bool.false_eq_true, if_false, Option.map_some]
+          exact ⟨_, rfl, by simp⟩
+    · simp only [capText, c1, c2, c4, c5, Option.map_none, Option.map_some]
+      have hne := hslice a (a + 1) (by omega) (by omega)
+      cases hs : slice value a (a + 1) with
+      | nil => exact absurd hs hne
+      | cons ch rest =>
+        simp only [Option.map_some]
+        exact ⟨_, rfl, by simp⟩
+
+end ERP.C09
+
+namespace ERP.C09
+open ERP ERP.Rx
+
+theorem intercalate_ne_nil (sep x : Text) (xs : List Text) (h : x ≠ []) : sep.intercalate (x :: xs) ≠ [] := by
+  cases xs with
+  | nil => simpa [List.intercalate] using h
+  | cons y ys =>
+    simp only [List.intercalate, List.intersperse, List.flatten_cons]
+    intro he
+    have := List.append_eq_nil_iff.mp he
+    exact h this.1
+
+theorem intercalate_ne_nil_of_mem (sep : Text) (l : List Text) (x : Text) (hx : x ∈ l) (hne : x ≠ []) :
+    sep.intercalate l ≠ [] := by
+  induction l with
+  | nil => cases hx
+  | cons y ys ih =>
+    rcases List.mem_cons.mp hx with rfl | hx'
+    · exact intercalate_ne_nil sep x ys hne
+    · cases ys with
+      | nil => cases hx'
+      | cons z zs =>
+        intro he
+        simp only [List.intercalate, List.intersperse, List.flatten_cons] at he
+        have h2 := (List.append_eq_nil_iff.mp he).2
+        have h3 := (List.append_eq_nil_iff.mp h2).2
+        exact ih hx' (by simpa [List.intercalate] using h3)
+
+/-- rendering a parser whose `gcode` is known never gives the empty string -/
+theorem stringify_nonempty (p : Parser) (g : Text) (hg : p.gcode = some g) (hne : g ≠ []) (sep : Text)
+    (lw ln : Bool) (cs : Option Bool) (cm eol : Bool) : p.stringify sep lw ln cs cm eol ≠ [] := by
+  unfold Parser.stringify
+  simp only [hg]
+  have hgne : (match p.subCode with | none => g | some sc => g ++ '.' :: natToText sc) ≠ [] := by
+    cases p.subCode with
+    | none => exact hne
+    | some sc => simp
+  have fin : ∀ (A B C : Text) (l : List Text) (b : Bool) (X : Text),
+      (match p.subCode with | none => g | some sc => g ++ '.' :: natToText sc) ∈ l →
+      A ++ (if b = true then (sep.intercalate l ++ sep, X) else (sep.intercalate l, ([] : Text))).1 ++
+        (if b = true then (sep.intercalate l ++ sep, X) else (sep.intercalate l, ([] : Text))).2 ++ B ++ C = [] →
+      False := by
+    intro A B C l b X hl h
+    have hR := intercalate_ne_nil_of_mem sep l _ hl hgne
+    simp only [List.append_eq_nil_iff] at h
+    obtain ⟨⟨⟨⟨_, h2⟩, _⟩, _⟩, _⟩ := h
+    cases b
+    · exact hR h2
+    · simp only [if_true, List.append_eq_nil_iff] at h2; exact hR h2.1
+  intro he
+  have hm : ∀ pl : List Text, (match p.subCode with | none => g | some sc => g ++ '.' :: natToText sc) ∈
+      (match p.parameters with
+        | some ps => pl ++ [match p.subCode with | none => g | some sc => g ++ '.' :: natToText sc] ++ [ps]
+        | none => pl ++ [match p.subCode with | none => g | some sc => g ++ '.' :: natToText sc]) := by
+    intro pl; cases p.parameters <;> simp
+  cases ln <;> cases hl : p.lineNumber <;> simp only [hl] at he
+  · exact fin _ _ _ _ _ _ (hm _) he
+  · exact fin _ _ _ _ _ _ (hm _) he
+  · exact fin _ _ _ _ _ _ (hm _) he
+  · exact fin _ _ _ _ _ _ (hm _) he
+
+/-- `buildCommand(gcode, **args)` never returns the empty string -/
+theorem buildCommand_nonempty {α : Type} (nt : α → Text) (gcode : Text) (args : List (Char × Option α)) (t : Text)
+    (h : buildCommand nt gcode args = .ok t) : t ≠ [] := by
+  unfold buildCommand at h
+  cases hs : ({} : Parser).setGcode gcode with
+  | error e => rw [hs] at h; cases h
+  | ok q =>
+    rw [hs] at h
+    obtain ⟨g, hg, hne⟩ := setGcode_gcode_some _ q gcode hs
+    simp only [bind, Except.bind] at h
+    split at h
+    · cases h
+    · cases h
+      exact stringify_nonempty _ g (by simpa [Parser.gcode] using hg) hne _ _ _ _ _ _
+
+/-- what the filter may return besides numbers: the command it was given, a configured script
+line, a deferred command -/
+def OutOk {α : Type} : Out α → Prop
+  | .orig c => c.text ≠ []
+  | .script _ t => t ≠ []
+  | _ => True
+
+/-- **Every command string the filter returns is non-empty**, provided the commands it was given
+and the configured script lines are (the latter is `C18.splitGcodeScript_spec`). -/
+theorem render_nonempty {α : Type} (nt : α → Text) (o : Out α) (t : Text) (ho : OutOk o)
+    (h : render nt o = .ok t) : t ≠ [] := by
+  cases o with
+  | orig c => simp only [render] at h; cases h; exact ho
+  | script b s => simp only [render] at h; cases h; exact ho
+  | g92e e =>
+    simp only [render, bind, Except.bind] at h
+    split at h
+    · cases h
+    · cases h; simp
+  | g0z f z =>
+    simp only [render, bind, Except.bind] at h
+    split at h
+    · cases h
+    · split at h
+      · cases h
+      · cases h; simp
+  | g0xy f x y =>
+    simp only [render, bind, Except.bind] at h
+    split at h
+    · cases h
+    · split at h
+      · cases h
+      · split at h
+        · cases h
+        · cases h; simp
+  | g1fe f e =>
+    simp only [render, bind, Except.bind] at h
+    split at h
+    · cases h
+    · split at h
+      · cases h
+      · cases h; simp
+  | fw recover orig =>
+    simp only [render] at h
+    cases h
+    split <;> cases recover <;> simp
+  | merged g args => exact buildCommand_nonempty nt _ args t (by simpa [render] using h)
 
 end ERP.C09
